@@ -516,11 +516,171 @@ fn wire(x: &X, verdict: bool) -> X {
     }
 }
 
+// ------------------------------------------------------------------------------------------------
+// HTTP/2 push (kvarn_extensions::push, mounted by mount_all): a page that links guarded files, fetched over TLS + h2;
+// what the server PUSHES is judged like an answer.
+//   op     = (L (N 0) addr target (L (B name) ...) min_pushes): GET target from addr over a fresh h2 connection; the answer and
+//            every pushed response may carry the SECRET markers of the named files only; fewer than min_pushes pushed responses
+//            = the push path was not exercised = harness trouble
+//   result = (L violation ...) as guards.wire
+// ------------------------------------------------------------------------------------------------
+struct Tls {
+    key: Arc<rustls::sign::CertifiedKey>,
+    client_h2: Arc<rustls::ClientConfig>,
+}
+fn tls() -> &'static Tls {
+    static TLS: std::sync::OnceLock<Tls> = std::sync::OnceLock::new();
+    TLS.get_or_init(|| {
+        use rustls::pki_types::PrivateKeyDer;
+        let provider = Arc::new(rustls::crypto::ring::default_provider());
+        let ss = rcgen::generate_simple_self_signed(vec!["localhost".to_string()]).expect("self-signed certificate");
+        let cert = ss.cert.der().clone();
+        let pk = PrivateKeyDer::Pkcs8(ss.key_pair.serialized_der().to_vec().into());
+        let pk = rustls::crypto::ring::sign::any_supported_type(&pk).expect("key type");
+        let key = Arc::new(rustls::sign::CertifiedKey::new(vec![cert.clone()], pk));
+        let mut roots = rustls::RootCertStore::empty();
+        roots.add(cert).expect("root");
+        let mut c = rustls::ClientConfig::builder_with_provider(provider)
+            .with_safe_default_protocol_versions()
+            .expect("versions")
+            .with_root_certificates(roots)
+            .with_no_client_auth();
+        c.alpn_protocols = vec![b"h2".to_vec()];
+        Tls { key, client_h2: Arc::new(c) }
+    })
+}
+
+async fn h2_fetch(hosts: Arc<HostCollection>, peer: SocketAddr, target: &[u8]) -> Result<Vec<(String, u16, Vec<u8>)>, String> {
+    let listener = tokio::net::TcpListener::bind("127.0.0.1:0").await.map_err(|e| format!("bind: {e}"))?;
+    let addr = listener.local_addr().map_err(|e| format!("addr: {e}"))?;
+    let client = tokio::net::TcpStream::connect(addr).await.map_err(|e| format!("connect: {e}"))?;
+    let (server_end, _) = listener.accept().await.map_err(|e| format!("accept: {e}"))?;
+    let desc = Arc::new(PortDescriptor::new(8443, hosts));
+    tokio::spawn(async move {
+        let _ = kvarn::handle_connection(kvarn::Incoming::Tcp(server_end), peer, desc, || true).await;
+    });
+    let _ = client.set_nodelay(true);
+    let name = rustls::pki_types::ServerName::try_from("localhost").unwrap();
+    let s = tokio::time::timeout(WAIT, tokio_rustls::TlsConnector::from(tls().client_h2.clone()).connect(name, client))
+        .await
+        .map_err(|_| "time-out: TLS handshake".to_string())?
+        .map_err(|e| format!("TLS handshake: {e}"))?;
+    let (send, conn) = tokio::time::timeout(WAIT, h2::client::Builder::new().enable_push(true).handshake::<_, Bytes>(s))
+        .await
+        .map_err(|_| "time-out: h2 handshake".to_string())?
+        .map_err(|e| format!("h2 handshake: {e}"))?;
+    tokio::spawn(async move {
+        let _ = conn.await;
+    });
+    let mut uri = b"https://localhost:8443".to_vec();
+    uri.extend_from_slice(target);
+    let req = Request::builder().method(Method::GET).uri(Uri::try_from(&uri[..]).map_err(|e| e.to_string())?).body(()).map_err(|e| e.to_string())?;
+    let mut send = tokio::time::timeout(WAIT, send.ready()).await.map_err(|_| "time-out: h2 ready".to_string())?.map_err(|e| format!("h2 ready: {e}"))?;
+    let (mut resp, _) = send.send_request(req, true).map_err(|e| format!("h2 send_request: {e}"))?;
+    let mut pushes = resp.push_promises();
+    async fn body_of(mut body: h2::RecvStream) -> Result<Vec<u8>, String> {
+        let mut data = Vec::new();
+        loop {
+            match tokio::time::timeout(WAIT, body.data()).await {
+                Err(_) => return Err("time-out: h2 body".into()),
+                Ok(None) => return Ok(data),
+                Ok(Some(Err(e))) => return Err(format!("h2 body: {e}")),
+                Ok(Some(Ok(chunk))) => {
+                    let _ = body.flow_control().release_capacity(chunk.len());
+                    data.extend_from_slice(&chunk);
+                }
+            }
+        }
+    }
+    let mut out = Vec::new();
+    let main = tokio::time::timeout(WAIT, &mut resp).await.map_err(|_| "time-out: h2 response".to_string())?.map_err(|e| format!("h2 response: {e}"))?;
+    let (parts, body) = main.into_parts();
+    out.push((String::from_utf8_lossy(target).into_owned(), parts.status.as_u16(), body_of(body).await?));
+    // the pushed responses: promises arrive while the request's stream is open; none for 1.5 s = no more
+    loop {
+        match tokio::time::timeout(Duration::from_millis(1500), pushes.push_promise()).await {
+            Err(_) | Ok(None) => break,
+            Ok(Some(Err(e))) => return Err(format!("h2 push promise: {e}")),
+            Ok(Some(Ok(pp))) => {
+                let (preq, presp) = pp.into_parts();
+                let r = tokio::time::timeout(WAIT, presp).await.map_err(|_| "time-out: pushed response".to_string())?.map_err(|e| format!("pushed response: {e}"))?;
+                let (parts, body) = r.into_parts();
+                out.push((preq.uri().path().to_string(), parts.status.as_u16(), body_of(body).await?));
+            }
+        }
+    }
+    Ok(out)
+}
+
+fn push(x: &X) -> X {
+    clean_stale_dirs();
+    let l = match x.as_l() {
+        Some(l) if l.len() == 2 => l,
+        _ => return X::bad(),
+    };
+    let c: Box<pipe::Customize> = Box::new(|kv, host, shared| {
+        (customize())(kv, host, shared);
+        *host.certificate.write().unwrap() = Some(tls().key.clone());
+    });
+    let built = match pipe::build_host(&l[0], Some(&*c)) {
+        Some(b) => b,
+        None => return X::bad(),
+    };
+    let ops = match l[1].as_l() {
+        Some(o) => o,
+        None => return X::bad(),
+    };
+    let rt = tokio::runtime::Builder::new_multi_thread().worker_threads(2).enable_all().build().unwrap();
+    let res: Result<Vec<X>, X> = rt.block_on(async {
+        let mut bad = Vec::new();
+        for (i, op) in ops.iter().enumerate() {
+            let l = op.as_l().ok_or_else(X::bad)?;
+            if l.len() != 5 || l[0].as_n() != Some(0) {
+                return Err(X::bad());
+            }
+            let peer = address(&l[1], 5000 + (i % 20000) as u16).ok_or_else(|| X::L(vec![X::N(96)]))?;
+            let target = l[2].as_b().ok_or_else(X::bad)?;
+            let allowed: Vec<&[u8]> = l[3].as_l().ok_or_else(X::bad)?.iter().filter_map(X::as_b).collect();
+            let min = l[4].as_n().ok_or_else(X::bad)? as usize;
+            let got = match h2_fetch(Arc::clone(&built.hosts), peer, target).await {
+                Ok(g) => g,
+                Err(why) => return Err(trouble(&why)),
+            };
+            if got.len() < 1 + min {
+                return Err(trouble(&format!("only {} pushed responses (at least {} expected): the push path was not exercised", got.len() - 1, min)));
+            }
+            for (k, (path, status, body)) in got.iter().enumerate() {
+                for m in markers(body) {
+                    if !allowed.iter().any(|a| *a == &m[..]) {
+                        bad.push(X::L(vec![
+                            X::n(i),
+                            X::b(format!(
+                                "the {} for {:?} (status {}) to {} carries the content of the guarded file {:?}",
+                                if k == 0 { "answer" } else { "PUSHED response" }, path, status, peer.ip(), String::from_utf8_lossy(&m)
+                            )),
+                        ]));
+                    }
+                }
+            }
+        }
+        Ok(bad)
+    });
+    rt.shutdown_timeout(Duration::from_millis(200));
+    if let Some(d) = &built.dir {
+        let _ = std::fs::remove_dir_all(d);
+    }
+    match res {
+        Ok(v) => X::L(v),
+        Err(e) => e,
+    }
+}
+
 pub fn dispatch(comp: &str, x: &X) -> Option<X> {
     Some(match comp {
         "guards.run" => run(x),
         "guards.wire" => wire(x, true),
         "guards.wire_obs" => wire(x, false),
+        "guards.push" => push(x),
         _ => return None,
     })
 }
